@@ -434,6 +434,10 @@ func c19Impact(r *rand.Rand) Case {
 					}
 					_ = ds.AddDocument(n, anyToContainer(ov.layers[li]))
 				}
+				// (a must-create add of a name that is taken is refused and changes nothing: the reports are as before)
+				if err := ds.AddDocument(ov.names[len(ov.names)-1], dom.Builder().Container(), analytics.MustCreate()); err == nil {
+					fail = append(fail, "a must-create add of a registered name was accepted")
+				}
 				m = ia.ResolveDocumentSet(ds, keys)
 			}
 			nm := normMap(m)
